@@ -13,6 +13,10 @@ CLAIMED = {
          "All arrival histories of n<=4 (quick; n<=6 thorough) batches with empty batches are enumerated by TLC on an implementation-shaped model of the re-sequencing writer whose framing rules are invariants; each history is forced on the real WriteFasta/WriteFastq/WriteJSON/WriteCSV and the tokenised bytes must equal the model output; racing multi-worker runs are validated by a TLC trace specification. Model checking is the right level because the property quantifies over histories the scheduler picks.",
          "Trusted: TLC, the tokenizer of the harness (cross-checked by encoding/json, encoding/csv), one formatting worker preserves push order. Bounded: n<=4/6 batches, sizes<=2 exhaustively; random streams up to 12 batches x 2-4 workers.",
          "DESIGN.md 5 C04"),
+ "C03": ("TLC model checking of StreamCases.tla/StreamOps.tla (required outputs + contracts of every deterministic combinator) and Pipeline.tla (worker pool -> SortBatches -> Rebatch: all interleavings, confluence, conservation, termination) + replay of every exported case and gated emit schedule on the real combinators + TLC validation of traces of the nondeterministic combinators and of the real commands",
+         "Every partition of the input into <=3 (thorough 4) batches incl. empty ones x every arrival permutation x parameters is enumerated by TLC together with the output StreamOps requires and replayed on SortBatches, Rebatch, FilterEmpty, FilterOn, DivideOn, Distribute, Concat, PairTo, IBatchOver, CompleteFileIterator, MakeISliceWorker; all interleavings of the pool/re-sequencer/rebatch pipeline are model-checked (confluence, exactly-once, termination under fairness) and every emit schedule is forced on the real pool with gates; Pool, worker pools, multi-file reader, chained pipelines and the obiconvert/obigrep/obiannotate binaries over a (max-cpu, batch-size) grid are validated by the StreamTrace specification.",
+         "Trusted: TLC, the harness source/collector relays. Bounded: <=3/4 batches of size<=2, W<=3 workers exhaustively; random streams of <=9 batches and 1-6 workers; commands on 4 file sets x 16-25 configurations. Hangs are detected by a 20 s patience.",
+         "DESIGN.md 5 C03"),
 }
 
 NOT_YET = "check not built yet in this round (planned, see DESIGN.md 10); not claimed"
